@@ -245,6 +245,16 @@ func (tr *tlsTranscript) lockstep(lc *lineClient, lines [][]byte, base int, phas
 		} else if inData {
 			inData = false
 		}
+		if !inData && r.code == 220 && lc.conn == lc.raw {
+			// a STARTTLS of the dialogue itself was accepted (the one the case was built around had been refused, e.g. 503 before any
+			// greeting): a well-behaved client now negotiates TLS before it says anything else
+			if err := lc.handshake(); err != nil {
+				tr.hsErr = err
+				tr.ended = fmt.Sprintf("the server answered 220 to line %d but the TLS handshake failed: %v", base+i, err)
+				return false
+			}
+			phase = 1
+		}
 		if r.code == 221 {
 			// the session is over; anything further would only fail
 			return i == len(lines)-1
@@ -647,7 +657,11 @@ func c03TlsDialogues(c *core.Ctx, m *core.Model, cert, key string) {
 			return
 		}
 		if tr.ended != "" && !strings.Contains(tr.ended, "EOF") {
-			c.Fail("one-reply-per-line", tc.describe(), tr.ended, "")
+			got := []string{}
+			for _, rp := range tr.replies {
+				got = append(got, rp.token())
+			}
+			c.Fail("one-reply-per-line", tc.describe(), tr.ended+"; replies received so far: "+strings.Join(got, " "), "")
 			return
 		}
 		// what was actually sent (the client stops after a 221)
